@@ -221,6 +221,14 @@ func (e *Env) evalIdent(x *EIdent) Val {
 		return v
 	}
 	u := e.fc.u
+	if g, ok := u.ghostGlobals[x.Name]; ok {
+		gs, gt, err := u.specSort(g.Type)
+		if err != nil {
+			e.fail(x.P, "%v", err)
+		}
+		e.fc.declSort(gs)
+		return Val{T: e.heap.read(e.fc.d, "global:$"+x.Name, gs, IntLit(0)), Typ: gt}
+	}
 	// package-level constant or variable
 	if obj := u.tpkg.Scope().Lookup(x.Name); obj != nil {
 		switch o := obj.(type) {
@@ -722,9 +730,25 @@ func (e *Env) evalCall(x *ECall) Val {
 	case "comparableAny":
 		a := arg(0)
 		return Val{T: fc.comparableAny(a.T), Typ: tb}
+	case "implements": // implements(a, T): the dynamic type of a satisfies interface type T (a != nil)
+		a := arg(0)
+		t, err := u.parseType(x.Raw)
+		if err != nil {
+			e.fail(x.P, "%v", err)
+		}
+		if _, ok := t.Underlying().(*types.Interface); !ok {
+			e.fail(x.P, "implements: %s is not an interface type", x.Raw)
+		}
+		return Val{T: fc.implements(a.T, t), Typ: tb}
 	case "isref":
 		a := arg(0)
 		return Val{T: &Term{"((_ is a_ref) " + a.T.S + ")", SBool}, Typ: tb}
+	case "isfn": // the interface value holds a function
+		a := arg(0)
+		return Val{T: &Term{"((_ is a_fn) " + a.T.S + ")", SBool}, Typ: tb}
+	case "fnOf": // the function value held by an interface value
+		a := arg(0)
+		return Val{T: App(SFn, "a_fn_v", a.T)}
 	case "isnil":
 		a := arg(0)
 		return Val{T: Eq(a.T, nilOf(a.T.Sort)), Typ: tb}
@@ -765,6 +789,14 @@ func (e *Env) evalCall(x *ECall) Val {
 		a := arg(0)
 		fc.d.Fun("i2f", []Sort{SInt}, SF64)
 		return Val{T: App(SF64, "i2f", a.T), Typ: types.Typ[types.Float64]}
+	case "f2i": // Go conversion of a float64 to an integer type (truncation toward zero in range)
+		a := arg(0)
+		fc.d.Fun("f2i", []Sort{SF64}, SInt)
+		return Val{T: App(SInt, "f2i", a.T), Typ: ti}
+	case "f2f32":
+		a := arg(0)
+		fc.d.Fun("f64_to_f32", []Sort{SF64}, SF64)
+		return Val{T: App(SF64, "f64_to_f32", a.T), Typ: types.Typ[types.Float32]}
 	case "int2bv":
 		a := arg(0)
 		if n, ok := isIntLit(a.T); ok {
